@@ -82,6 +82,11 @@ def directed_cases():
     cad = [inc("NY", D(2019, 12, 31), D(2020, 12, 31), 100), inc("FL", D(2019, 12, 31), D(2020, 12, 31), 40),
            inc("TX", D(2019, 12, 31), D(2020, 6, 30), 7), inc("TX", D(2020, 6, 30), D(2020, 12, 31), 5)]
     out.append((cad, True, {"kind": "directed:cadence", "slice_diff": "details", "basis": "inc"}))
+    # one slice built from plain dates, one from pandas.Timestamp, one from datetime.datetime: same coordinates
+    mixed = [S.mk_cell(CumulativeCell, fl, D(2019 + p, 1, 1), D(2019 + p, 12, 31), D(2020 + e, 12, 31),
+                       {"paid_loss": 100.0 * (i + 1), "earned_premium": 1000.0}, Metadata(details={"src": fl}))
+             for i, fl in enumerate(("date", "ts", "dt")) for p in (0, 1) for e in (0, 1)]
+    out.append((mixed, True, {"kind": "directed:date-flavours", "slice_diff": "details", "date_flavours": ["date", "dt", "ts"]}))
     falsy = [CumulativeCell(D(2020, 1, 1), D(2020, 3, 31), D(2020, 3, 31), {"paid_loss": v},
                             Metadata(details={"lob": lob, "zero": z, "flag": False, "empty": "", "f": 0.0}))
              for lob, v, z in (("a", 10, 0), ("b", 20, 0), ("c", 30, False))]
@@ -118,7 +123,7 @@ def run(ctx):
                 "loss_details -- or several; shared/partly shared None-valued details; 1000 vs 1000.0 limits), any subset of the "
                 "26 registered field names per slice (ratio fields with/without their weight key), int / dyadic float / int64 / "
                 "float64-array values (uniform or mixed per slice), cumulative and incremental (incl. slices on different evaluation cadences, so that cells share period and evaluation date but differ in prev), falsy detail values 0/0.0/False/\"\", summarize_premium True/False, "
-                "regular/ragged/holey/irregular/single layouts with partially overlapping slices; malformed: mixed currency, "
+                "regular/ragged/holey/irregular/single layouts with partially overlapping slices; slices whose cells are built from pandas.Timestamp / datetime.datetime dates (same coordinates as plain-date slices); malformed: mixed currency, "
                 "mixed risk basis, unregistered field, upper-case field, explicit None values.  Non-trivial = distinct case with "
                 ">= 2 cells or a refusal.")
     ctx.assumptions += [
@@ -161,6 +166,10 @@ def run(ctx):
         tcells = list(t.cells)
         known = []
         fails = S.summarize_oracle(tcells, prem, status, res, notes, known)
+        if S.dates_not_plain(tcells):
+            fails.insert(0, "Cell did not normalise the dates it was given (pandas.Timestamp / datetime) to datetime.date")
+        for fl in info.get("date_flavours", []):
+            ctx.hist(f"dates-given-as:{fl}")
         if known:                              # known finding S1 (suppressed only while listed as `known`)
             ctx.hist("known:S1-premium-none-from-first-cell")
             ctx.violation("impl-violation", f"summarize violates C09: {known[0]}", violation_data(tcells, prem, known, info),
@@ -249,6 +258,8 @@ def replay(ctx, data):
     status, res = S.run_impl(lambda: t.summarize(summarize_premium=prem))
     known = []
     fails = S.summarize_oracle(list(t.cells), prem, status, res, None, known) + known
+    if S.dates_not_plain(list(t.cells)):
+        fails.insert(0, "Cell did not normalise the dates it was given to datetime.date")
     print(f"summarize(summarize_premium={prem}) on {len(cells)} cells ->",
           "raised " + type(res).__name__ if status == "err" else f"{len(res)} cells")
     if status == "ok":
